@@ -15,7 +15,7 @@ from ._pairs import compare_all, V
 
 PID = "C09"
 LEVEL = "model_checking"
-WITNESSES = ["compositions", "cut_inside_season", "cut_at_season_jump", "overshoot_call", "dedup_edges", "final_tables_compared", "reused_instance", "call_ends_exactly_at_termination", "numpy_step_counts"]
+WITNESSES = ["compositions", "cut_inside_season", "cut_at_season_jump", "overshoot_call", "dedup_edges", "final_tables_compared", "reused_instance", "call_ends_exactly_at_termination", "numpy_step_counts", "weather_reassigned_between_calls"]
 NONTRIVIAL = ["cut_at_season_jump", "overshoot_call", "dedup_edges", "reused_instance", "call_ends_exactly_at_termination"]
 
 CONFIGS = {
@@ -35,6 +35,11 @@ A.CROPS.setdefault("maize.04", {"name": "Maize", "scale": 0.04})
 
 
 def spec_for(name):
+    if name.endswith("@lead"):
+        s = spec_for(name[:-5])
+        s["weather"]["lead"] = 300       # the user's record starts 300 days before the simulation
+        s["weather"]["trail"] = 50
+        return s
     short = name.endswith("@short")
     if short:
         name = name[:-6]
@@ -90,6 +95,9 @@ def scenarios(tier, seed=0):
     for name in names[:3]:
         comps = list(compositions(n))
         yield {"kind": "brute", "config": name + "@short", "n": n, "parts": [list(c) for c in comps[:: (16 if q else 4)]], "numpy_steps": True}
+    for name in names[:3]:
+        comps = list(compositions(n))
+        yield {"kind": "brute", "config": name + "@short@lead", "n": n, "parts": [list(c) for c in comps[:: (16 if q else 4)]], "reassign_weather": True}
     N = 30 if q else 64
     for name in names:
         for j0 in range(0, N + 1, 4):
@@ -208,6 +216,10 @@ def run(scn):
                         if m._clock_struct.model_is_finished:
                             break
                         check_unfinished(m, res, {"parts": parts, "after": done})
+                        if scn.get("reassign_weather"):
+                            # a user refreshing the (unchanged) weather table between two calls through the public attribute
+                            m.weather_df = S.make_weather(ref.spec)
+                            wit["weather_reassigned_between_calls"] = wit.get("weather_reassigned_between_calls", 0) + 1
                         cs = canon_state(m, with_outputs=True)
                         seen.add(cs[:8])
                         if cs != ref.after(done):
